@@ -310,6 +310,11 @@ func (s *ASpec) build() (*core.Spec, error) {
 	for _, x := range given {
 		scribble(x)
 	}
+	if buildCount%6 == 5 {
+		// a later recompilation that fails (the host lost its interpreters): the compiled specification stays in use and
+		// stays what it was
+		spec.Compile(context.Background(), core.InterpretersMap{}, true)
+	}
 	for name, nd := range s.Nodes {
 		if nd.Uncompiled {
 			spec.Nodes[name].Action = nil
